@@ -174,9 +174,20 @@ def run_case(case):
             qs = float(si.QUANTITY[usys[2]])
             ts = float(si.TIME[usys[1]])
             x = [v / qs for v in state]
-            got = fdx(0.0, x)
-            got = [float(g) * qs / ts for g in got]
+            kept = fdx(0.0, x)
+            got = [float(g) * qs / ts for g in kept]
             worst = max(worst, check_vec("make_dxdtf", got, f_mask, mag, zero, bad, ctx))
+            # the function is an ODE right-hand side: integrators evaluate it at several states and keep the results (the
+            # stages of a Runge-Kutta step).  A second evaluation at another state must follow the law there, and must
+            # leave the first result - still held by the caller - what it was
+            state2 = [v * r.choice([0.5, 2.0, 3.0]) + r.choice([0.0, 1.0]) for v in state]
+            f2, mag2 = ref.rate_law(desc, state2, chst)
+            got2 = fdx(0.5, [v / qs for v in state2])
+            worst = max(worst, check_vec("make_dxdtf (second evaluation)", [float(g) * qs / ts for g in got2], f2, mag2, zero, bad, ctx))
+            again = [float(g) * qs / ts for g in kept]
+            if again != got:
+                bad.append({"what": "make_dxdtf: a result kept by the caller is changed by the next evaluation", "first_result": got,
+                            "same_object_after_second_evaluation": again, **ctx})
             info["paths"].append("dxdtf")
         except Exception as e:
             bad.append({"what": "make_dxdtf: exception on a valid system", "error": "%s: %s" % (type(e).__name__, e), **ctx})
